@@ -147,6 +147,15 @@ def printDQ (p : Nat) (q : Rat) : Tok :=
   gText p (decide (q < 0)) (padDigits p nx.1) nx.2
 
 def absR (q : Rat) : Rat := if q < 0 then -q else q
+
+/-- is the rational a finite double of either sign (the executable form of `IsDbl`, see `isDblB_iff_IsDbl`) -/
+def isDblB (q : Rat) : Bool := q == 0 || isDoubleB (absR q)
+
+/-- `printf("%.*f", p, d)`: what `os << d` emits when the caller left the stream in `std::fixed` notation — `p` digits
+    AFTER the point (finding C17-4: the writers override the precision but inherit the notation) -/
+def printFixedQ (p : Nat) (q : Rat) : Tok :=
+  let n := roundHalfEven (absR q * pow10Q (p : Int))
+  (if q < 0 then ['-'] else []) ++ printN (n / 10 ^ p) ++ (if p == 0 then [] else '.' :: padDigits p (n % 10 ^ p))
 def sumQ (l : List Rat) : Rat := l.foldl (· + ·) 0
 
 /-- `double → unsigned long` as the hardware does it for the values that occur; outside
